@@ -332,6 +332,20 @@ class C06(PropBase):
                         (w, regs, mb, mh) = self.ENVS[(len(a) + len(b)) % 2 * 5]
                         addA(w, 5, 0, 16, regs, mb, mh, text)
                     dist["binop_grid"] = dist.get("binop_grid", 0) + 1
+        # rule isolation: several general-register rules in one walk; an earlier one (by name order, both orders
+        # are generated) fails or succeeds with every short expression, a later one is sensitive to anything the
+        # earlier evaluation may have left behind (operands on a shared stack, a stale CFA, a half-applied write)
+        sens = ["8 +", "+", "5", "1 2", "^", ".cfa", "r1 -", ".undef", "$r0 8 + ^", "2 *"]
+        short = [" ".join(c) for n in range(1, 3) for c in itertools.product(ALPHABET[:16], repeat=n)]
+        iso = short + ["4096 ^ 5 +", "1 2 0 /", "7 junk", ".cfa $nope + ^", "1 .undef +", "1 2 3", "5 3 @", "1 2 3 4 5 + junk"]
+        for i, e1 in enumerate(iso):
+            for j, e2 in enumerate(sens):
+                (w, regs, mb, mh) = self.ENVS[(i + j) % 2]
+                addA(w, 5, 0, 16, regs, mb, mh, ".cfa: 16 .ra: 8 r3: %s r4: %s" % (e1, e2))
+                addA(w, 5, 0, 16, regs, mb, mh, ".cfa: 16 .ra: 8 r5: %s r4: %s r6: %s" % (e2, e1, e2))
+                if (i + j) % 4 == 0:
+                    addA(w, 5, 0, 16, regs, mb, mh, ".cfa: 16 .ra: 8 r4: %s" % e1, [(2, "r9: %s" % e2), (3, "r1: %s" % e2)])
+                dist["rule_isolation"] = dist.get("rule_isolation", 0) + 1
         if tier == "thorough":
             sub = ["+", "-", "/", "@", "^", ".cfa", ".undef", "8", "-1", "$r0", "r1", "r2:"]
             for c in itertools.product(sub, repeat=4):
